@@ -137,8 +137,15 @@ EndOK ==
             /\ Mode = "find" => nyerr = nfail            \* ... and every failure is an item
       [] OTHER -> FALSE                                  \* "panic" / "rejected"
 
+(* C19 for streams (recorded only by the C19 check): every stream byte is fed to the *)
+(* automaton at most once                                                            *)
+WorkOK == "trans" \in DOMAIN E => E.trans <= Len(S)
+
 Finish ==
     /\ live /\ l = Len(Ops) + 1
+    /\ IF WorkOK THEN TRUE
+       ELSE Reject("the stream search made " \o ToString(E.trans) \o " automaton transitions for a stream of "
+                   \o ToString(Len(S)) \o " bytes")
     /\ IF EndOK THEN TRUE
        ELSE Reject("run ended with " \o E.end \o " after " \o ToString(nm) \o " of " \o ToString(Len(orc))
                    \o " matches and " \o ToString(opos) \o " of " \o ToString(Len(S))
